@@ -30,9 +30,16 @@ type FixedEntry struct {
 	What       string `json:"what_failed"`
 }
 
+type NotClaimed struct {
+	Property   string `json:"property"`
+	Obligation string `json:"obligation"`
+	Reason     string `json:"reason"`
+}
+
 type FindingsFile struct {
-	Known []KnownFinding `json:"known_findings"`
-	Fixed []FixedEntry   `json:"fixed"`
+	Known      []KnownFinding `json:"known_findings"`
+	Fixed      []FixedEntry   `json:"fixed"`
+	NotClaimed []NotClaimed   `json:"not_claimed"`
 }
 
 type LockFile map[string]map[string]string // property -> obligation id -> expected status
@@ -185,9 +192,21 @@ func checkCmd(args []string) int {
 	if !*keep {
 		defer os.RemoveAll(smtDir)
 	}
+	for _, o := range all {
+		for _, k := range findings.Known {
+			if k.Property == prop && k.Obligation == o.ID {
+				o.knownFinding = true
+			}
+		}
+		for _, k := range findings.NotClaimed {
+			if (k.Property == prop || k.Property == "*") && k.Obligation == o.ID {
+				o.knownFinding = true
+			}
+		}
+	}
 	pool := make(chan struct{}, 5)
 	for _, j := range jobs {
-		e.renderScripts(j.obls, j.r.Axioms, j.r.Assumes)
+		e.renderScripts(j.obls, j.r.Axioms, j.r.Assumes, j.r.AssumePCs)
 	}
 	var wgAll sync.WaitGroup
 	for _, j := range jobs {
@@ -216,6 +235,13 @@ func checkCmd(args []string) int {
 			known[k.Obligation] = k
 		}
 	}
+	notClaimed := map[string]string{}
+	for _, k := range findings.NotClaimed {
+		if k.Property == prop || k.Property == "*" {
+			notClaimed[k.Obligation] = k.Reason
+		}
+	}
+	var notClaimedSeen []string
 	seen := map[string]bool{}
 	var reports []oblReport
 	var discharged, claimed, violations int
@@ -242,6 +268,12 @@ func checkCmd(args []string) int {
 		solverSecs += o.Time
 		if o.Solver != "" {
 			perSolver[o.Solver]++
+		}
+		if _, nc := notClaimed[o.ID]; nc {
+			// an obligation that does not discharge on the unchanged tree for
+			// reasons of solver reach; it is generated but never counted
+			notClaimedSeen = append(notClaimedSeen, o.ID+" ["+o.Status+"]")
+			continue
 		}
 		if kf, isKnown := known[o.ID]; isKnown {
 			if !ok {
@@ -297,6 +329,9 @@ func checkCmd(args []string) int {
 			if _, isKnown := known[o.ID]; isKnown {
 				continue
 			}
+			if _, nc := notClaimed[o.ID]; nc {
+				continue
+			}
 			m[o.ID] = o.Status
 		}
 		lock[prop] = m
@@ -321,6 +356,7 @@ func checkCmd(args []string) int {
 		"outside_subset":           outside,
 		"known_findings":           knownPrinted,
 		"cover_undecided":          coverUndecided,
+		"not_claimed":              notClaimedSeen,
 		"engine_notes":             notes,
 	}
 	writeEvidence(evPath, prop, tier, seed, time.Since(t0).Seconds(), reports, cov, tb, violations, nil, &[2]int{claimed, discharged})
@@ -437,6 +473,13 @@ func (e *Engine) replayObligation(prop string, o *Obligation, why string) (strin
 			payload["replay_confirmed"] = ok
 			confirmed = ok
 		}
+	} else if !o.Cover && o.Kind == "store" && (strings.Contains(o.ID, "store:S3") || strings.Contains(o.ID, "store:S4")) {
+		if out, ok, test := e.replayPlan(o); test != "" {
+			payload["replay_test"] = test
+			payload["replay_output"] = truncate(out, 8000)
+			payload["replay_confirmed"] = ok
+			confirmed = ok
+		}
 	} else if (o.Status == "sat" || o.candidateQF) && !o.Cover {
 		if out, ok, test := e.tryReplay(o); test != "" {
 			payload["replay_test"] = test
@@ -479,7 +522,6 @@ func runCmd(dir string, timeout time.Duration, env []string, name string, args .
 	}
 	return string(out), err
 }
-
 
 type lemmaFile struct {
 	ID   string
